@@ -702,11 +702,11 @@ def spaces(tier, seed):
     if quick:
         core = list(range(1, 49)) + [96, 120, 240, 480, 960]
         rest = [d for d in range(49, 960) if d not in core]
-        extra = [d for i, d in enumerate(rest) if i % 24 == seed % 24]
+        extra = [d for i, d in enumerate(rest) if i % 32 == seed % 32]
         sp.append(Space("estimator-core", lambda: gen_est(core), True,
                         "divisions 1..48, 96, 120, 240, 480, 960; every integer duration 1..16*divisions; with and without composite durations"))
         sp.append(Space("estimator-block", lambda: gen_est(extra), True,
-                        "every 24th divisions value of 49..959 (offset seed mod 24); every integer duration 1..16*divisions"))
+                        "every 32nd divisions value of 49..959 (offset seed mod 32); every integer duration 1..16*divisions"))
     else:
         sp.append(Space("estimator-all", lambda: gen_est(range(1, 961)), True,
                         "divisions 1..960; every integer duration 1..16*divisions; with and without composite durations"))
@@ -739,7 +739,7 @@ def spaces(tier, seed):
     rq = [1, 2, 3, 4, 6] if quick else [1, 2, 3, 4, 5, 6, 7, 8, 12]
     add("runs", lambda sh: gen_runs(rq, ORDERS[:2] if quick else ORDERS[:4], sh), 1,
         "divs %s; runs of 3..5 equal contiguous notes, unit duration 1..2*divs, offset 0..min(divs,4), closing note none/1/unit+1, 4 layouts" % (rq,))
-    add("linked", lambda sh: gen_linked([1, 2, 4], 10, ORDERS[:3], sh), 12,
+    add("linked", lambda sh: gen_linked([1, 2, 4], 10, ORDERS[:3], sh), 16,
         "divs {1,2,4} x 3 layouts x chains of 2..3 contiguous equal-pitch notes with cut points anywhere in 0..10 x pre-existing ties "
         "(all / first / last link) x (no slur, slur over all, two slurs, dangling slurs, given symbolic durations) x 3 operation orders")
     add("divisions-change", lambda sh: gen_divchange(ORDERS[:2], sh), 6,
